@@ -41,6 +41,11 @@ enum Defect {
 	Undecodable(usize),
 	/// position `dup` answered twice: once with a value, once with an error object (in this order if `value_first`)
 	DupExtraMixed { dup: usize, value_first: bool },
+	/// every entry answered exactly once under its own id, plus one more element at array position `at`: an
+	/// "Invalid request" error whose id cannot be attributed (null, or a string that is no number)
+	UnreadableIdExtra { at: usize, text_id: bool },
+	/// the answer of `victim` is missing; in its place in the array stands an error with an unattributable id
+	UnreadableIdReplacing { victim: usize, text_id: bool },
 }
 
 impl Defect {
@@ -57,6 +62,8 @@ impl Defect {
 			Defect::OtherIdKindOne(_) => "one-id-of-other-kind",
 			Defect::Undecodable(_) => "undecodable-result",
 			Defect::DupExtraMixed { .. } => "duplicate-extra-value-and-error",
+			Defect::UnreadableIdExtra { .. } => "unattributable-id-extra",
+			Defect::UnreadableIdReplacing { .. } => "unattributable-id-replacing",
 		}
 	}
 }
@@ -192,6 +199,25 @@ fn craft_reply(c: &Case, entries: &[(Value, String)], r: &mut Rng) -> (String, V
 				parts.insert(at, last);
 			}
 		}
+		Defect::UnreadableIdExtra { at, text_id } => {
+			for &p in &c.perm {
+				parts.push(answer(p, entries[p].0.clone()));
+				answered[p] = true;
+			}
+			let id = if *text_id { json!("not-a-number") } else { Value::Null };
+			parts.insert((*at).min(parts.len()), err_response(&id, -32600, "Invalid request", None));
+		}
+		Defect::UnreadableIdReplacing { victim, text_id } => {
+			for &p in &c.perm {
+				if p == *victim {
+					let id = if *text_id { json!("not-a-number") } else { Value::Null };
+					parts.push(err_response(&id, -32600, "Invalid request", None));
+				} else {
+					parts.push(answer(p, entries[p].0.clone()));
+					answered[p] = true;
+				}
+			}
+		}
 		Defect::OtherIdKind => {
 			for &p in &c.perm {
 				let x = num(&entries[p].0);
@@ -267,7 +293,7 @@ fn judge(c: &Case, o: &Outcome, client: &str) -> Vec<(String, String)> {
 							}
 						} else if complete || (o.answered.get(i) == Some(&true) && !matches!(c.defect, Defect::OtherIdKind | Defect::OtherIdKindOne(_))) {
 							// an entry that was answered exactly must not degrade to a placeholder error
-							if complete {
+							if complete || matches!(c.defect, Defect::UnreadableIdExtra { .. } | Defect::UnreadableIdReplacing { .. }) {
 								bad("answer-lost", format!("entry {i} is a library error ({code}) although its answer was in the reply"));
 							}
 						}
@@ -507,12 +533,18 @@ fn all_cases(max_n: usize, seed: u64, sample_above: usize) -> Vec<Case> {
 			defects.push(Defect::DupExtraMixed { dup, value_first: true });
 			defects.push(Defect::DupExtraMixed { dup, value_first: false });
 			defects.push(Defect::DupExtra { dup });
+			for text_id in [false, true] {
+				defects.push(Defect::UnreadableIdExtra { at: dup, text_id });
+				defects.push(Defect::UnreadableIdReplacing { victim: dup, text_id });
+			}
 			for missing in 0..n {
 				if missing != dup {
 					defects.push(Defect::DupReplacing { dup, missing });
 				}
 			}
 		}
+		defects.push(Defect::UnreadableIdExtra { at: n, text_id: false });
+		defects.push(Defect::UnreadableIdExtra { at: n, text_id: true });
 		let perms = permutations(n);
 		for d in &defects {
 			for p in &perms {
